@@ -71,6 +71,8 @@ def generate(rng, tier="quick"):
         elif kind == "resolving":
             op["ref"] = rng.choice(refs)
             op["body_raises"] = rng.random() < 0.5
+            if rng.random() < 0.4:
+                op["inner"] = rng.choice(refs)
         elif kind == "in_scope":
             op["scope"] = rng.choice(["sub/", "http://sim.test/root/sub/", "#x", "../q.json"] + list(world["docs"]))
             op["ref"] = rng.choice(refs + [None])
